@@ -24,7 +24,7 @@ from vf.props.common import harness_error, inconclusive, proved, violation
 ID = "C13"
 LEVEL = "model_checking"
 ITEM_BUDGET_S = {"quick": 500, "thorough": 1800}
-QT = {"quick": 15000, "thorough": 60000}
+QT = {"quick": 15000, "thorough": 30000}
 _TIER = "quick"
 X, Y, Z = ("var", "x"), ("var", "y"), ("var", "z")
 
@@ -48,7 +48,7 @@ META = dict(
     rule="one case = (operation history, observation step); the solver quantifies over the point x and all symbolic data (coefficients, right-hand sides, every bound value ever assigned)",
     bounds={
         "quick": "alphabet of 16 operations (4 objectives via minimize incl. one that shifts the variable layout, 1 via maximize, 4 subject_to incl. two lists, 2 bound assignments, 4 solve methods {auto, SLSQP, trust-constr, highs}, read); histories of length <= 4 that start by setting an objective and end with an observation (exhaustive, about 4.5k) plus three targeted length-5 families: [objective, constraint, solve, new objective or bound edit, solve] and [objective, solve, constraint, constraint, solve] over all objectives / constraints and methods {auto, SLSQP}",
-        "thorough": "length <= 5 (exhaustive with the same pruning), plus L-BFGS-B and highs-ds",
+        "thorough": "adds L-BFGS-B and highs-ds; length <= 4 exhaustive with the same pruning, the length-5 layer sampled (VERIF_SEED) down to 80000 histories, the targeted length-5 families in full",
     },
     outside=["solver replies (fixed non-branching reply; mapping is C06-C08)", "removal of constraints (no API)", "rounding (S7)"],
     assumptions=["S4/S5 in 'fixed' mode", "S1", "S2", "S6", "S7", "reference = a fresh Problem over the same expression and variable objects"],
@@ -101,6 +101,22 @@ def items(tier, seed):
                     for C2 in subs:
                         if C1 != C2:
                             extra.append((A, m1, C1, C2, m2))
+    # method interleavings: the first solve after an edit uses a derivative-free / bounds-less method (the compiled
+    # cache is built for it), a later solve of the unchanged model a derivative-based one, and the other way round
+    free = [("solve", "Nelder-Mead"), ("solve", "BFGS")]
+    grad = [("solve", "SLSQP"), ("solve", "L-BFGS-B"), ("solve", "trust-constr")]
+    for A in objs:
+        for m1 in free:
+            for m2 in grad:
+                extra += [(A, m1, m2), (A, m2, m1), (A, subs[0], m1, m2), (A, m1, edits[0], m2), (A, m1, subs[0], m2)]
+    if tier == "thorough":
+        # all histories up to length 4; the length-5 layer is sampled (VERIF_SEED) down to about 80000 histories
+        import random as _r
+        short = [h for h in hs if len(h) <= 4]
+        long_ = [h for h in hs if len(h) > 4]
+        rng = _r.Random(seed)
+        keep = min(len(long_), 80000)
+        hs = short + rng.sample(long_, keep)
     seen = set(hs)
     extra = [h for h in extra if h not in seen]
     its = [("twin", 0)]
@@ -476,7 +492,9 @@ def replay(payload):
                     with np.errstate(all="ignore"):
                         if not K.close(float(ca["fun"](x)), float(cb["fun"](x)), 1e-9, 1e-12):
                             return True, f"step {step}: objective callable differs from a fresh problem at {x.tolist()}"
-                        if not _same(ca["jac"](x), cb["jac"](x)):
+                        if (ca.get("jac") is None) != (cb.get("jac") is None):
+                            return True, f"step {step}: jac passed={ca.get('jac') is not None} but a fresh problem passes jac={cb.get('jac') is not None}"
+                        if ca.get("jac") is not None and not _same(ca["jac"](x), cb["jac"](x)):
                             return True, f"step {step}: gradient callable differs from a fresh problem"
                         if (ca.get("hess") is None) != (cb.get("hess") is None) or (ca.get("hess") is not None and not _same(ca["hess"](x), cb["hess"](x))):
                             return True, f"step {step}: Hessian differs from a fresh problem"
